@@ -1207,6 +1207,21 @@ func (h *Handler) servePromQueryMetaDataWithMetricStore(w http.ResponseWriter, r
 }
 
 func (h *Handler) servePromCreateTSDB(w http.ResponseWriter, r *http.Request, user meta2.User) {
+	// Check authorization: creating a database requires admin privilege, as CREATE DATABASE does.
+	if h.Config.AuthEnabled {
+		if user == nil {
+			// no users in system
+			h.httpError(w, "error authorizing query: create admin user first or disable authentication", http.StatusForbidden)
+			h.Logger.Error("error authorizing query: create admin user first or disable authentication")
+			return
+		}
+		if !user.AuthorizeUnrestricted() {
+			h.httpError(w, "error authorizing, requires admin privilege only", http.StatusForbidden)
+			h.Logger.Error("exec error! authorizing create tsdb", zap.String("userID", user.ID()))
+			return
+		}
+	}
+
 	tsdb := mux.Vars(r)[TSDB]
 	var err error
 	if err := ValidataTSDB(tsdb); err != nil {
